@@ -176,6 +176,16 @@ def identity_ok(e, op):
     for f in fs:
         if fd.get(f.key) is not f or e.get(f.key) is not f:
             return False
+    if op[0] in ("setitem", "set_field") and fs:
+        k = fs[0].key
+        old = e.get(k)
+        old_state = (old.key, canon(old.value), old.start_line)
+        keep = old.value
+        e[k] = "<assigned later>"
+        replaced = e.get(k) is not old and (old.key, canon(old.value), old.start_line) == old_state
+        e.set_field(old)  # put the stored object back: state as before
+        if not replaced or e.get(k) is not old or old.value is not keep:
+            return False
     if op[0] == "set_field" and fs:
         probe = Field("zz_identity", "v")
         e.set_field(probe)
